@@ -1,8 +1,11 @@
 #!/usr/bin/env python3
 """prints a markdown table of /verif/seeded/*/meta.json"""
-import json, os, glob
+import json, os, glob, sys
+prefixes = sys.argv[1:]
 rows = []
 for d in sorted(glob.glob("/verif/seeded/*")):
+    if prefixes and not any(os.path.basename(d).startswith(p) for p in prefixes):
+        continue
     m = json.load(open(os.path.join(d, "meta.json")))
     name = os.path.basename(d)
     det = ", ".join(m.get("detected_by", [])) or "**none**"
